@@ -6,6 +6,7 @@
 //! serial execution of the accepted operations and the tree RP-valid.
 
 use std::collections::{BTreeMap, BTreeSet};
+use std::str::FromStr;
 use std::sync::{Arc, Mutex};
 use std::sync::atomic::{AtomicU64, Ordering};
 use std::time::{Duration, Instant};
@@ -260,6 +261,13 @@ async fn round(
     // a remote child of q, played by the harness: its (pre-signed) list
     // request is sent by several clients at once, so that the parent's
     // status entry for one child is written concurrently
+    let clients = rng.range(4, 12) as usize;
+    let per_client = rng.range(3, 7) as usize;
+    // a remote publisher (a CA elsewhere that publishes here), played by the
+    // harness with the same identity: every (client, call) has a pre-signed
+    // publication request for a URI of its own under the publisher's base
+    let mut remote_pubs: BTreeMap<(usize, usize), Bytes> = BTreeMap::new();
+    let mut rpub_base = String::new();
     let remote_list: Option<Bytes> = {
         let hs_dir = args.work.join(format!("hs{case}"));
         let _ = std::fs::remove_dir_all(&hs_dir);
@@ -277,6 +285,38 @@ async fn round(
                 Err(_) => None,
                 Ok(id) => {
                     let ki = id.public_key().key_identifier();
+                    {
+                        use rpki::ca::idexchange::{PublisherHandle, PublisherRequest};
+                        use rpki::ca::publication::{
+                            Base64, Message, Publish, PublishDelta,
+                        };
+                        let ph = PublisherHandle::from_str("rpub").unwrap();
+                        let req = PublisherRequest::new(
+                            Base64::from_content(&id.to_bytes()), ph.clone(), None);
+                        if manager.add_publisher(
+                            req, Actor::user("verif-client")).await.is_ok()
+                        {
+                            if let Ok(det) = manager.get_publisher(ph).await {
+                                rpub_base = det.base_uri.to_string();
+                                for c in 0..clients {
+                                    for seq in 0..per_client {
+                                        let name = format!("c{c}s{seq}.bin");
+                                        let Ok(uri) = det.base_uri.join(name.as_bytes())
+                                            else { continue };
+                                        let mut delta = PublishDelta::empty();
+                                        delta.add_publish(Publish::with_hash_tag(
+                                            uri, Base64::from_content(
+                                                name.repeat(3).as_bytes())));
+                                        if let Ok(cms) = hs.create_rfc8181_cms(
+                                            Message::delta(delta), &ki)
+                                        {
+                                            remote_pubs.insert((c, seq), cms.to_bytes());
+                                        }
+                                    }
+                                }
+                            }
+                        }
+                    }
                     let added = manager.ca_add_child(h("q"),
                         api::admin::AddChildRequest {
                             handle: h("rk").convert(),
@@ -298,9 +338,9 @@ async fn round(
     }
     let _ = std::fs::remove_dir_all(args.work.join(format!("hs{case}")));
 
+    if remote_pubs.is_empty() { r.count("remote_publisher_setup_failed", 1); }
+    let remote_pubs = Arc::new(remote_pubs);
     // ---- concurrent phase --------------------------------------------------
-    let clients = rng.range(4, 12) as usize;
-    let per_client = rng.range(3, 7) as usize;
     let recs: Arc<Mutex<Vec<Rec>>> = Arc::new(Mutex::new(vec![]));
     // calls issued and not yet answered: (client, seq) -> what
     let inflight: Arc<Mutex<BTreeMap<(usize, usize), String>>> =
@@ -311,6 +351,7 @@ async fn round(
     for c in 0..clients {
         let manager: Arc<KrillManager> = manager.clone();
         let remote_list = remote_list.clone();
+        let remote_pubs = remote_pubs.clone();
         let recs = recs.clone();
         let inflight = inflight.clone();
         let clients_done = clients_done.clone();
@@ -318,7 +359,7 @@ async fn round(
         let mut crng = Rng::new(rng.next());
         joins.push(tokio::spawn(async move {
             for seq in 0..per_client {
-                let choice = crng.weighted(&[34, 8, 10, 8, 6, 6, 16, 6, 6, 6, 12]);
+                let choice = crng.weighted(&[34, 8, 10, 8, 6, 6, 16, 6, 6, 6, 12, 14]);
                 let (kind, target, arg): (&str, &str, String) = match choice {
                     0 => {
                         let t = *crng.pick(&["c1", "c2", "p", "q"]);
@@ -344,7 +385,9 @@ async fn round(
                     // the daily snapshot job comes due
                     9 => ("snapshots_due", "", String::new()),
                     // the remote child of q calls in
-                    _ => ("remote_list", "q", format!("agent-{c}-{seq}")),
+                    10 => ("remote_list", "q", format!("agent-{c}-{seq}")),
+                    // the remote publisher publishes one more object
+                    _ => ("raw_publish", "rpub", format!("c{c}s{seq}.bin")),
                 };
                 let t0 = Instant::now();
                 inflight.lock().unwrap().insert(
@@ -384,6 +427,27 @@ async fn round(
                         Some(b) => manager.rfc6492(
                             h("q"), b.clone(), Some(arg.clone()), actor.clone()
                         ).await.map(|_| ()).map_err(|e| e.to_string()),
+                    },
+                    "raw_publish" => match remote_pubs.get(&(c, seq)) {
+                        None => Ok(()),
+                        Some(b) => match manager.rfc8181(
+                            rpki::ca::idexchange::PublisherHandle::from_str("rpub")
+                                .unwrap(), b.clone()).await
+                        {
+                            Err(e) => Err(e.to_string()),
+                            Ok(reply) => {
+                                use rpki::ca::publication::{PublicationCms, Reply};
+                                match PublicationCms::decode(reply.as_ref())
+                                    .map_err(|e| e.to_string())
+                                    .and_then(|c| c.into_message().as_reply()
+                                        .map_err(|e| e.to_string()))
+                                {
+                                    Ok(Reply::Success) => Ok(()),
+                                    Ok(other) => Err(format!("reply {other:?}")),
+                                    Err(e) => Err(e),
+                                }
+                            }
+                        }
                     },
                     "snapshots_due" => {
                         krill::server::mq::TaskQueue::new(manager.storage())
@@ -468,7 +532,8 @@ async fn round(
             ("roa_reject", true) => true,
             ("ca_info" | "routes_show" | "history" | "repo_stats"
              | "cas_stats" | "refresh_all" | "republish_all"
-             | "child_update" | "snapshots_due" | "remote_list", false) => true,
+             | "child_update" | "snapshots_due" | "remote_list"
+             | "raw_publish", false) => true,
             _ => false,
         };
         if bad {
@@ -594,6 +659,32 @@ async fn round(
                 return Some(("published-roa-not-configured".into(),
                     format!("{ca}: {v}"), wit(json!({}))))
             }
+        }
+    }
+    // the remote publisher holds exactly what was acknowledged to it
+    if !rpub_base.is_empty() {
+        let have: BTreeMap<String, u64> = files.iter()
+            .filter(|(u, _)| u.starts_with(&rpub_base))
+            .map(|(u, b)| (u[rpub_base.len()..].to_string(), kvh::util::fnv(b)))
+            .collect();
+        let want: BTreeMap<String, u64> = recs.iter()
+            .filter(|x| x.kind == "raw_publish" && x.ok
+                    && remote_pubs.contains_key(&(x.client, x.seq)))
+            .map(|x| (x.arg.clone(), kvh::util::fnv(x.arg.repeat(3).as_bytes())))
+            .collect();
+        r.eval();
+        r.count("remote_publisher_comparisons", 1);
+        r.count("remote_publications_acknowledged", want.len() as u64);
+        if have != want {
+            let lost: Vec<&String> = want.keys()
+                .filter(|k| have.get(*k) != want.get(*k)).take(6).collect();
+            let extra: Vec<&String> = have.keys()
+                .filter(|k| !want.contains_key(*k)).take(6).collect();
+            return Some((
+                if !lost.is_empty() { "acknowledged-publication-lost" }
+                else { "unacknowledged-publication-present" }.into(),
+                format!("remote publisher rpub: lost or different {lost:?}, \
+                         extra {extra:?}"), wit(json!({}))))
         }
     }
     // the child's entitlement is one of the written values
